@@ -77,6 +77,14 @@ CHECKS.update({
          "For two reachable states every single-field wire mutation (two levels deep) of a well-formed instance of every relayer/bridge message, all vote-bitmap lengths 0..33, raw-transaction truncations and mutations, mutations of MsgNewEthBlock and an execution-layer request grammar are delivered to the real application; a dying worker process (= node crash, incl. panics in errgroup goroutines), an escaping panic or a FinalizeBlock error is a violation, and failed transactions must leave all module stores equal to the same block without them.",
          KA_NOTE + " Proposals rejected by ProcessProposal are not forced into FinalizeBlock.", "DESIGN.md section 4 C19"),
 })
+CHECKS.update({
+ "C07": ("chainmc", "replica comparison (second proposal round, restart before/after Commit, shifted wall clock) plus exhaustive enumeration of Go map-iteration starts through a runtime hook (instrumented build), on scenario blocks incl. adversarial request batches",
+         "For every scenario block the same transactions are executed on differently treated replicas of the real application and must agree on app hash, tx results incl. gas, validator-update set, engine calls, store dump and next-block hash; with a go build -overlay of runtime/map.go every map iteration of the FinalizeBlock goroutine is enumerated: all combinations of starts at range sites in goat packages, every single deviation at sites in dependencies.",
+         KA_NOTE + " Overlay patches runtime/map.go and time/time.go of the Go toolchain in the checking build only; torn writes inside Commit are out of scope.", "DESIGN.md section 4 C07"),
+})
+t=list(CHECKS["C08"]); t[0]="chainmc"; t[1]="tree search with real PrepareProposal checked by a second replica and 26 proposal mutations; preemption-bounded exhaustive schedule exploration (controlled scheduler over the errgroup goroutines at store-operation granularity, instrumented build); separate free-running -race pass"
+t[2]=t[2]+" Every schedule with at most 2 (thorough 3) preemptions of the two goroutines of PrepareProposalHandler and verifyEthBlockProposal is executed for 7 state/mempool/proposal classes with the same oracles; data races are reported by the Go race detector on a free-running pass over the same harness bodies (scheduler hand-offs would blind it)."
+CHECKS["C08"]=tuple(t)
 PENDING = {}
 
 def main():
@@ -104,7 +112,7 @@ def main():
         "setup_cmd": "bin/setup",
         "hooks": {
             "guard": "verif",
-            "enable": "no source hooks in /repo are needed so far: checks link the unmodified packages of /repo (go.mod replace => /repo) into the harness; dependency-side instrumentation is applied with go build -overlay",
+            "enable": "no source hooks in /repo: checks link the packages of /repo unmodified (go.mod replace => /repo); instrumentation lives in dependencies only and is applied with go build -tags verifovl -overlay overlay/overlay.json (bin/build-ovl), patching copies of runtime/map.go, time/time.go, x/sync/errgroup and cosmos-sdk runtime/store.go",
             "baseline_off_cmd": "cd /repo && GOFLAGS=-mod=mod GOPROXY=off GOSUMDB=off GOTOOLCHAIN=local go test -json -vet=off -count=1 -timeout 25m ./...",
             "source_commits": [],
             "add_only": True,
@@ -113,7 +121,7 @@ def main():
             {"name": "inputmc", "path": "harness/checks", "serves_properties": [p for p in CHECKS if CHECKS[p][0] == "inputmc"], "kind_free_text": "bounded exhaustive input enumeration of real functions/handlers against an independent reference"},
             {"name": "keepermc", "path": "harness/checks", "serves_properties": [p for p in CHECKS if CHECKS[p][0] == "keepermc"], "kind_free_text": "explicit-state DFS over real keeper transition functions on copy-on-write branches of a real App, with state de-duplication"},
             {"name": "chainmc", "path": "harness/checks", "serves_properties": [p for p in CHECKS if CHECKS[p][0] == "chainmc"], "kind_free_text": "ABCI-level depth-bounded exploration of the real application (PrepareProposal/ProcessProposal/FinalizeBlock/Commit) with a scripted fake execution layer and fault injection"},
-            {"name": "schedmc", "path": "harness/checks", "serves_properties": [p for p in CHECKS if CHECKS[p][0] == "schedmc"], "kind_free_text": "controlled scheduler (preemption-bounded DFS) over the errgroup goroutines of prepare/process proposal"},
+            {"name": "schedmc", "path": "harness/sched", "serves_properties": [p for p in CHECKS if CHECKS[p][0] == "schedmc"], "kind_free_text": "controlled scheduler (preemption-bounded DFS) over the errgroup goroutines of prepare/process proposal"},
         ],
         "checks": checks,
         "not_applicable": na,
